@@ -20,6 +20,11 @@ TECH = {
     'C03': 'Verus frame clause of the strategy contract on extracted functions; bounded stand-in for simple(); Kani on generated modules for size/align equality',
     'C12': 'Verus: builder invariant preserved by every public operation (functions extracted from /repo each run); strategy membership clause; bounded stand-in for simple()',
     'C18': 'Verus: postcondition of every add_* entry point against an abstract type resolver',
+    'C04': 'Kani: contracts of generated new / new_uninit / accessors / unpack on real generated modules (corpus), symbolic field values',
+    'C05': 'Kani: contracts of the four generated From impls and of a conversion chain on real generated modules (corpus)',
+    'C06': 'Kani: ghost drop counters + CBMC double-free / memory-leak checks on real generated modules (corpus)',
+    'C07': 'Kani: contract of the four storage primitives under symbolic placement + bare-buffer probes + call-site receiver classification of generated modules',
+    'C16': 'Kani: contracts of generated clone / clone_from on real generated modules (corpus)',
     'C08': 'Kani: postcondition of try_convert_vec_in_place checked with a specification converter, bounded vector length',
     'C09': 'Kani: error-arm postcondition with ghost drop counters and CBMC memory-leak check, bounded vector length',
     'C10': 'Kani: per type pair the refusal assertion is the only failing check and the converter is unreachable',
